@@ -1008,6 +1008,11 @@ func c14Diff(jobs []*job, bdir, id string) []vj {
 	}
 	byBatch := map[string][]tl{}
 	for _, j := range jobs {
+		if cfgs[j.cfg].build == "cover" || j.tier != "" {
+			// the coverage children run the quick case lists whatever the tier:
+			// their transcripts are not comparable line by line (accounting only)
+			continue
+		}
 		b, err := os.ReadFile(filepath.Join(bdir, "run", j.id+".transcript"))
 		if err != nil {
 			continue
